@@ -14,6 +14,7 @@ import re
 from values import *
 from program import load_config, subst, ty_str, is_adt, prim, AnchorMissing, loc
 import sim as S
+import report
 import streamkit as K
 import models as M
 
@@ -269,6 +270,23 @@ def to_dyn_expansion(chk, prog, nostd_prog=None):
         fns_ = {f["name"]: f for f in facts["fns"] if f["name"] in ("conv", "conv_again") and "body" in f}
         if len(fns_) != 2:
             raise AnchorMissing("witness conv / conv_again")
+        # the argument expression is evaluated exactly once (witness conv_expr: the argument is a call to produce())
+        ce = [f for f in facts["fns"] if f["name"] == "conv_expr" and "body" in f]
+        if len(ce) != 1:
+            raise AnchorMissing("witness conv_expr")
+        keye = key + ":argument-once"
+        chk.obligation(keye, "to_dyn! evaluates its argument expression exactly once (%s)" % tag)
+        ncalls = 0
+        for bb in ce[0]["body"]["blocks"]:
+            t = bb["term"]
+            if t["k"] == "call" and t["func"].get("ck") == "fn" and t["func"]["fn"]["name"] == "produce":
+                ncalls += 1
+        chk.evaluated(1, nontrivial=(keye, ncalls))
+        if ncalls != 1:
+            chk.violation("C17.D", keye, "to_dyn!(Tr, produce()) calls produce() %d times in its expansion (%s): the converted Reference is the value of another evaluation of the argument, "
+                          "not the Reference the caller handed over" % (ncalls, tag))
+        else:
+            chk.discharge(keye)
         key0, tag0 = key, tag
         for wname in ("conv", "conv_again"):
             body = fns_[wname]["body"]
@@ -469,6 +487,17 @@ def run(chk):
     reference_tables(chk, prog, sim)
     macro_hygiene(chk, prog)
     impls_in_every_build(chk)
+    # static_reference!: the Reference must point at the expansion's own static, initialised once and never replaced (shared with C16)
+    from rules import C16
+    subs = report.Check("C17", chk.tier)
+    C16.static_reference_expansion(subs)
+    chk.evaluations += subs.evaluations
+    keys_ = "D:static_reference-expansion"
+    chk.obligation(keys_, "static_reference! hands out the address of its own, never replaced static (table shared with C16)")
+    for v in subs.violations:
+        chk.violation("C17.D" if v["rule"].startswith("C16") else v["rule"], "static:" + v["key"], "every clone must keep denoting the same live object: " + v["what"], **v["detail"])
+    if not subs.violations:
+        chk.discharge(keys_)
     to_dyn_expansion(chk, prog, load_config("K2"))
     chk.configs.append("K2")
     if chk.tier == "thorough":
